@@ -26,7 +26,7 @@ def run(tier):
         R.assume(a)
     R.assume("'exactly at the event' is 'within 8 eps (tol_epsilon) of the event time, never beyond it': integrate()'s own stopping test; under A1 nothing finer can be stated")
     R.assume("'the last state is on the event surface' (g(t_last, y_last) ~ 0) needs the re-integrated state to agree with the interpolant the root was found on: numerical analysis; bounded native clause only")
-    R.assume("infinite target time (implicit_integration): the loop-condition branch is outside the contract's requires (finite tf_); bounded native clause only")
+    R.assume("infinite target times are verified for n = 1 terminal event in both directions (the contract then has no target: the only normal exit is the terminal stop); an infinite target without a terminal event does not terminate (A7)")
     R.trust("z3", "pyvc executor", "contracts of DenseOutput proved in C06")
     src = source.load_all()
     reg = solver.Registry(solver.THOROUGH_TIMEOUT_MS if tier == "thorough" else 30000)
@@ -35,6 +35,10 @@ def run(tier):
     cfgs = EC.configs(tier, "terminal")
     for n, terms, d, dense in cfgs:
         jobs.extend(IE.event_jobs(PID, n, terms, d, dense))
+    # infinite target times: integrate(+-inf) runs until a terminal event ends it
+    for d in (1, -1):
+        jobs.append(dict(fn="props.integrate_events:job_events", label="%s/%s" % (PID, IE.config_label(1, (True,), d, 0, False, True)),
+                         kwargs=dict(prop=PID, n=1, terminals=[True], direction=d, infinite=True)))
     jobs.extend(IE.recursive_jobs(PID, cfgs))
     jobs.append(dict(fn="props.integrate_events:job_status", label=PID + "/status", kwargs=dict(prop=PID)))
     EC.obligations_of(reg, R, jobs)
